@@ -147,6 +147,33 @@ def _task(task, p):
         for i in range(len(pats)):
             compare(Wd[i], (ow[0][i], ow[1][i], ow[2][i], ow[3][i]), ref_mk([int(v) for v in Wd[i]]), p, "wide_range", "gu_i16")
         p.count("wide_range", evaluations=len(pats), states=len(pats), traces_validated_against_impl=len(pats), nontrivial=int((k > 1).sum()))
+    # the same patterns as float32 series whose distinct values lie within 4e-6 .. 6e-5 relative of each other
+    # (a strictly increasing image of the ranks: tau, p and the flag are those of the pattern; ties stay exact ties)
+    if n <= 7:
+        st = _st()
+        for base_v, step in ((1000.0, 0.004), (-250.0, 0.001), (16384.0, 1.0 / 64)):
+            Xf = (np.float32(base_v) + R.astype(np.float32) * np.float32(step)).astype(np.float32)
+            okrows = np.array([len(set(row.tolist())) == len(set(s)) for row, s in zip(Xf, pats)])
+            of = [np.asarray(a) for a in st._mann_kendall_trend_gu(Xf)]
+            ond = [np.asarray(a) for a in st._mann_kendall_trend_gu_nd(Xf, -9999.0)]
+            for nm, o in (("gu_f32", of), ("gu_nd_f32", ond)):
+                for i in np.nonzero(okrows)[0]:
+                    S, rtau, rp, rmed, rtrend, margin, var = refs[i]
+                    if var == 0:
+                        continue
+                    msgs = []
+                    if not ulp32(o[0][i], float(rtau)):
+                        msgs.append(f"tau {float(o[0][i])!r} != {float(rtau)!r}")
+                    if not (abs(float(o[1][i]) - rp) <= 1e-6 * rp + 1e-7):
+                        msgs.append(f"p {float(o[1][i])!r} != {rp!r}")
+                    if margin > 1e-9 and int(o[3][i]) != rtrend:
+                        msgs.append(f"trend {int(o[3][i])} != {rtrend}")
+                    if msgs:
+                        case = {"kind": "close", "entry": nm, "ranks": list(map(int, R[i])), "base": base_v, "step": step}
+                        p.violation("close_floats", case, case,
+                                    f"{nm}(float32 {base_v} + {step} * {list(map(int, R[i]))}): " + "; ".join(msgs) + " (values of the rank pattern itself)")
+            p.count("close_floats", evaluations=2 * int(okrows.sum()), states=int(okrows.sum()), traces_validated_against_impl=int(okrows.sum()),
+                    nontrivial=sum(1 for s, k in zip(pats, okrows) if k and len(set(s)) < n))
     # symmetries as relations between implementation outputs
     st = _st()
     base = [np.asarray(a) for a in outs["gu_i16"]]
@@ -445,6 +472,22 @@ def replay(sub, case, p):
         for arr in (V, T):
             x = arr[0]
             run_entries(np.ascontiguousarray(arr), p, sub, [ref_mk([int(v) for v in x])], entries=("gu_i16",))
+    elif case["kind"] == "close":
+        st = _st()
+        r = np.asarray(case["ranks"], dtype=np.int64)
+        xf = (np.float32(case["base"]) + r.astype(np.float32) * np.float32(case["step"])).astype(np.float32)[None, :]
+        o = st._mann_kendall_trend_gu(xf) if case["entry"] == "gu_f32" else st._mann_kendall_trend_gu_nd(xf, -9999.0)
+        compare_close = ref_mk([int(v) for v in r])
+        got = [np.asarray(a)[0] for a in o]
+        msgs = []
+        if not ulp32(got[0], float(compare_close[1])):
+            msgs.append(f"tau {float(got[0])!r} != {float(compare_close[1])!r}")
+        if not (abs(float(got[1]) - compare_close[2]) <= 1e-6 * compare_close[2] + 1e-7):
+            msgs.append(f"p {float(got[1])!r} != {compare_close[2]!r}")
+        if compare_close[5] > 1e-9 and int(got[3]) != compare_close[4]:
+            msgs.append(f"trend {int(got[3])} != {compare_close[4]}")
+        if msgs:
+            p.violation(sub, case, case, f"{case['entry']}(float32 {case['base']} + {case['step']} * {case['ranks']}): " + "; ".join(msgs))
     elif case["kind"] == "attr_history":
         attr_histories(p)
     else:
